@@ -211,7 +211,7 @@ CLAIMED["C18"] = (
     "evaluates a field before assigning another the tracker must not assign first, and a variable is reported "
     "exactly when it is not assigned.  This decides soundness of the tracker's traversal against the engine's own "
     "evaluation order for all templates; lookups performed by host "
-    "objects and by the debug feature around a failing instruction are not decided. Also: every public entry point returns, unfiltered, what find_undeclared computed on every path except the parse-error exit. Later additions: (W5) implicit names: pre-assigned constants must be names the interpreter binds (loop, caller), assigned inside the construct's own scope, loop only after the loop filter was visited, a macro's name only after the macro was visited, and a name the interpreter stores only `if let Some` is Some on every producer path (traced across functions) except under the construct's does-not-mention flag; (W1b) what the code generator evaluates inside an assignment target is visited by the tracker's target walker itself.",
+    "objects and by the debug feature around a failing instruction are not decided. Also: every public entry point returns, unfiltered, what find_undeclared computed on every path except the parse-error exit. Later additions: (W5) implicit names: pre-assigned constants must be names the interpreter binds (loop, caller), assigned inside the construct's own scope, loop only after the loop filter was visited, a macro's name only after the macro was visited, and a name the interpreter stores only `if let Some` is Some on every producer path (traced across functions) except under the construct's does-not-mention flag; (W1b) what the code generator evaluates inside an assignment target is visited by the tracker's target walker itself. (W2b) for (target, value) collections the engine evaluates all values before binding any target only if the tracker does not interleave.",
     "DESIGN.md §3 C18",
     "One known finding (macro argument defaults) is listed; its repair would change macro closure capture.")
 
@@ -247,7 +247,7 @@ CLAIMED["C01"] = (
     "reviewed entry.  Interpreter recursion is decided under C11.  These are necessary "
     "conditions that realistic regressions break (a dropped guard, a new unchecked add, an unbounded capacity); "
     "absence of panics over the whole engine, VM operand-stack discipline and the stack cost of data recursion (a template can nest a list 50000 deep through a namespace attribute in a loop; dropping, printing, comparing or hashing it overflows a 2 MiB stack - confirmed, see DESIGN.md §3 C01) are "
-    "NOT decided. Later additions: (P9) slice/Vec indexing in the builtin modules is in range by construction (whole range, search results, a literal index under a dominating length test, or a reviewed entry); (P10) the interpreter's unsigned counters are only decremented after the matching increment succeeded on the same path; P3 also treats the number of call arguments as template-controlled, checks the divisor of / and %, and requires a constant bound on template-chosen iteration counts; P7 treats character columns like literals (not byte offsets). Round 5: the taint keeps flowing through checked/saturating/wrapping results, closure captures, combinator payloads, coerced integer pairs and the loop object's counters; bounds on checked products count (path-sensitive over matches!-style booleans); (P14) every run-time width/precision handed to Rust's formatter derives from fields whose every producer is a bounded parse with constant + slack <= u16::MAX; (P9) a reviewed indexing entry that leans on a helper is valid only while the helper clamps its result below the bound.",
+    "NOT decided. Later additions: (P9) slice/Vec indexing in the builtin modules is in range by construction (whole range, search results, a literal index under a dominating length test, or a reviewed entry); (P10) the interpreter's unsigned counters are only decremented after the matching increment succeeded on the same path; P3 also treats the number of call arguments as template-controlled, checks the divisor of / and %, and requires a constant bound on template-chosen iteration counts; P7 treats character columns like literals (not byte offsets). Round 5: the taint keeps flowing through checked/saturating/wrapping results, closure captures, combinator payloads, coerced integer pairs and the loop object's counters; bounds on checked products count (path-sensitive over matches!-style booleans); (P14) every run-time width/precision handed to Rust's formatter derives from fields whose every producer is a bounded parse with constant + slack <= u16::MAX; (P9) a reviewed indexing entry that leans on a helper is valid only while the helper clamps its result below the bound. (P15) a loop that re-slices its haystack after str::find has a provably non-empty needle.",
     "DESIGN.md §3 C01",
     "Partial claim.  The taint sources are integer parameters of the builtin modules and integer conversions of template values; arithmetic on other integers is out of scope.")
 
